@@ -89,7 +89,7 @@ ST = [
 
 # First operators of the depth-2 compositions that are compiled by default ("core" family); the other
 # first operators are compiled only with VF_EMB1_FAMILY=full (see emb/build.rs). Second operators: all.
-CORE_FIRST = ["map", "flat_map_ordered", "unique", "merge_unordered", "join", "filter_not_in"]
+CORE_FIRST = ["map", "unique", "merge_unordered", "join"]
 
 
 def programs():
